@@ -29,7 +29,7 @@ struct ByteModel {
 static uint8_t byteval(uint64_t seed, uint64_t idx) { return (uint8_t)(Rng::mix(seed ^ 0xB17E, idx) >> 17); }
 
 static int run_c15(uint64_t seed, long from, long to) {
-    long ops = 0, reads = 0, shortreads = 0, drops = 0, wholes = 0, seeks = 0, straddle = 0, hist = 0, gapsmade = 0, gapjumps = 0, beyond4g = 0, reads_beyond4g = 0;
+    long ops = 0, reads = 0, shortreads = 0, drops = 0, wholes = 0, seeks = 0, straddle = 0, hist = 0, gapsmade = 0, gapjumps = 0, beyond4g = 0, reads_beyond4g = 0, beyondput = 0;
     std::set<uint64_t> sigs;
     std::string sample;
     for (long it = from; it < to; it++) {
@@ -47,6 +47,7 @@ static int run_c15(uint64_t seed, long from, long to) {
         bool bad = false;
         for (int k = 0; k < len && !bad; k++) {
             int op = r.below(10);
+            if (m.g > m.p && r.chance(1, 2)) op = r.chance(1, 2) ? 7 : 0;      // the get position is ahead of the put position: release what is held, then write across it
             sig = sig * 1099511628211ULL ^ (uint64_t)op;
             if (op <= 1) {                      // write n bytes
                 int n = r.below(3 * c + 2);
@@ -97,6 +98,7 @@ static int run_c15(uint64_t seed, long from, long to) {
             } else if (op == 6) {               // relative seek
                 long long k2 = (long long)r.below(9) - 4;
                 if (r.chance(1, 10)) k2 = (long long)r.below(2 * c + 1);
+                if (r.chance(1, 8) && m.p >= m.g) { k2 = (m.p - m.g) + (long long)r.below(2 * c + 1); beyondput++; }      // to or past the put position: the way the reader skips an object that has not arrived yet
                 const ByteModel::Gap * ga = m.gap_at_or_after(m.g);
                 if (ga && ga->at - m.g <= 3 * (long long)c && r.chance(2, 3)) { k2 = ga->at + ga->len - m.g; gapjumps++; }     // the way the reader skips an object it does not decode
                 if (k2 < 0 && m.g + k2 < m.L) continue;
@@ -167,7 +169,7 @@ static int run_c15(uint64_t seed, long from, long to) {
     }
     std::ostringstream o;
     o << "{\"histories\":" << hist << ",\"ops\":" << ops << ",\"reads\":" << reads << ",\"short_reads\":" << shortreads << ",\"drops\":" << drops << ",\"whole_containers\":" << wholes
-      << ",\"seeks\":" << seeks << ",\"skipped_stretches_of_about_4GiB\":" << gapsmade << ",\"seeks_over_them\":" << gapjumps << ",\"ops_with_put_position_beyond_4GiB\":" << beyond4g << ",\"reads_at_positions_beyond_4GiB\":" << reads_beyond4g << ",\"writes_straddling_containers\":" << straddle << ",\"distinct\":" << sigs.size() << ",\"samples\":[" << hc::jstr(sample) << "]}";
+      << ",\"seeks\":" << seeks << ",\"seeks_to_or_past_the_put_position\":" << beyondput << ",\"skipped_stretches_of_about_4GiB\":" << gapsmade << ",\"seeks_over_them\":" << gapjumps << ",\"ops_with_put_position_beyond_4GiB\":" << beyond4g << ",\"reads_at_positions_beyond_4GiB\":" << reads_beyond4g << ",\"writes_straddling_containers\":" << straddle << ",\"distinct\":" << sigs.size() << ",\"samples\":[" << hc::jstr(sample) << "]}";
     hc::stat(o.str());
     return 0;
 }
